@@ -20,6 +20,7 @@ import (
 	"strings"
 	"sync"
 	"sync/atomic"
+	"syscall"
 	"time"
 )
 
@@ -41,10 +42,10 @@ const (
 )
 
 var (
-	ErrNotExist = iofs.ErrNotExist
-	ErrExist    = iofs.ErrExist
-	ErrInvalid  = iofs.ErrInvalid
-	ErrClosed   = iofs.ErrClosed
+	ErrNotExist   = iofs.ErrNotExist
+	ErrExist      = iofs.ErrExist
+	ErrInvalid    = iofs.ErrInvalid
+	ErrClosed     = iofs.ErrClosed
 	ErrPermission = iofs.ErrPermission
 )
 
@@ -59,8 +60,8 @@ func IsExist(err error) bool    { return errors.Is(err, iofs.ErrExist) }
 // ---- the disk ----
 
 type inode struct {
-	data  []byte
-	dir   bool
+	data   []byte
+	dir    bool
 	synced bool
 }
 
@@ -78,17 +79,17 @@ type StepInfo struct {
 }
 
 type FS struct {
-	mu     sync.Mutex
-	id     int64
-	nodes  map[string]*inode // absolute cleaned path inside the disk ("/" = mount root)
-	steps  int
-	Log    []StepInfo // micro-steps performed since ResetLog (when Record is set)
-	Record bool
-	armed  bool
+	mu                  sync.Mutex
+	id                  int64
+	nodes               map[string]*inode // absolute cleaned path inside the disk ("/" = mount root)
+	steps               int
+	Log                 []StepInfo // micro-steps performed since ResetLog (when Record is set)
+	Record              bool
+	armed               bool
 	crashStep, crashOff int
-	Escapes []string // paths addressed outside any simulated disk... recorded by owner lookups
-	tmpSeq int
-	Syncs  int
+	Escapes             []string // paths addressed outside any simulated disk... recorded by owner lookups
+	tmpSeq              int
+	Syncs               int
 	// error injection: the n-th mutating micro-step fails with this error (0 = off)
 	FailStep int
 	FailErr  error
@@ -241,8 +242,17 @@ func resolve(name string) (*FS, string, error) {
 		escapes.Store(name, true)
 		return nil, "", &PathError{Op: "open", Path: name, Err: iofs.ErrNotExist}
 	}
+	// NAME_MAX, as every common file system has it: no path component longer than 255 bytes
+	for _, comp := range strings.Split(inner, "/") {
+		if len(comp) > NameMax {
+			return nil, "", &PathError{Op: "open", Path: name, Err: syscall.ENAMETOOLONG}
+		}
+	}
 	return v.(*FS), inner, nil
 }
+
+// NameMax is the longest file name the simulated file system accepts.
+const NameMax = 255
 
 // TakeEscapes returns and clears the paths that were addressed outside any mounted disk
 // and contain the given substring (the caller's mount root id).
@@ -275,13 +285,13 @@ func (f *FS) parentOK(p string) error {
 // ---- files ----
 
 type File struct {
-	fs     *FS
-	name   string // as given
-	inner  string
-	ino    *inode
-	pos    int
-	flag   int
-	closed bool
+	fs      *FS
+	name    string // as given
+	inner   string
+	ino     *inode
+	pos     int
+	flag    int
+	closed  bool
 	dirRead bool
 }
 
@@ -519,11 +529,11 @@ func (i fileInfo) Mode() FileMode {
 	}
 	return 0600
 }
-func (i fileInfo) ModTime() time.Time       { return time.Time{} }
-func (i fileInfo) IsDir() bool              { return i.dir }
-func (i fileInfo) Sys() interface{}         { return nil }
-func (i fileInfo) Type() FileMode           { return i.Mode().Type() }
-func (i fileInfo) Info() (FileInfo, error)  { return i, nil }
+func (i fileInfo) ModTime() time.Time      { return time.Time{} }
+func (i fileInfo) IsDir() bool             { return i.dir }
+func (i fileInfo) Sys() interface{}        { return nil }
+func (i fileInfo) Type() FileMode          { return i.Mode().Type() }
+func (i fileInfo) Info() (FileInfo, error) { return i, nil }
 
 func (fl *File) Stat() (FileInfo, error) {
 	fl.fs.mu.Lock()
